@@ -17,7 +17,7 @@ pub fn meta() -> PropertyMeta {
     PropertyMeta {
         id: "C09",
         level: "exploration",
-        rule: "every formattable type: all i8/u8/i16/u16 values in decimal and (non-negative) #H/#Q/#B form exhaustively; boundary-directed and random 32/64-bit and pointer-sized integers; f32 stratified over every exponent x 4096 mantissas (quick) or ALL 2^32 bit patterns (thorough); f64 subnormals, powers of two and ten, 17-digit cases and random patterns; bool; 7-bit strings with quotes/separators/NL; blocks of boundary lengths (0,1,9,10,99,100,999,1000,9999,10000,99999,100000) and random content; character and expression data; Vec and ArrayVec lists of every element kind (empty must fail); hand-written derived enums; every standard error code and custom errors with arbitrary 7-bit message / extended text. Three checks per value: independent syntax recogniser, independent decoder equals the original, library Tokenizer + TryFrom equals the original. Non-trivial: encoding longer than one character that is not a bare digit run, or a string containing a delimiter, float in exponent form, block whose length field crosses a power of ten, enum variant with numeric suffix.",
+        rule: "every formattable type: all i8/u8/i16/u16 values in decimal and (non-negative) #H/#Q/#B form exhaustively; boundary-directed and random 32/64-bit and pointer-sized integers; f32 stratified over every exponent x 4096 mantissas (quick) or ALL 2^32 bit patterns (thorough); f64 subnormals, powers of two and ten, 17-digit cases and random patterns; bool; 7-bit strings with quotes/separators/NL; blocks of boundary lengths (0,1,9,10,99,100,999,1000,9999,10000,99999,100000) and random content; character and expression data; Vec and ArrayVec lists of every element kind (empty must fail); hand-written derived enums; every standard error code and custom errors with arbitrary 7-bit message / extended text. Three checks per value: independent syntax recogniser, independent decoder equals the original, library Tokenizer + TryFrom equals the original. Added: a string / error text of EVERY length up to 640 (1100) with a quote and a quote pair at EVERY offset; blocks of 10^k - 1, 10^k, 10^k + 1 bytes for every k up to 7; long error texts. Non-trivial: encoding longer than one character that is not a bare digit run, or a string containing a delimiter, float in exponent form, block whose length field crosses a power of ten, enum variant with numeric suffix.",
         assumptions: &[
             "NR2/NR3 are recognised in the forgiving-listener form (lower-case e, optional exponent sign), because the pinned test-suite fixes the text 1.0e10",
             "string tokens keep doubled quotes (zero-copy), so the library round trip un-doubles before comparing",
